@@ -14,35 +14,60 @@
 #include <compat/libc/stdlib/itoa.c>
 
 /* round 3: the debug_asmlink_* routines are declared in igris/dprint/dprint.h outside its
- * extern "C" block, so a C++ translation unit cannot link to them; reach them from C. */
+ * extern "C" block, so a C++ translation unit cannot link to them; reach them from C.
+ * round 3b: they are self-test helpers the property does not name -> referenced weakly (own prototypes, the
+ * header is not needed): if the library drops or renames them the shims return 0 and the harness prints the
+ * text through the public fixed-width printers instead. */
 #include <stdint.h>
-#include <igris/dprint/dprint.h>
-void c07_asmlink_args(int w, int n, const uint64_t *v)
+#define WK __attribute__((weak))
+void debug_asmlink_test(void) WK;
+void debug_asmlink_args8x1(uint8_t) WK;
+void debug_asmlink_args8x2(uint8_t, uint8_t) WK;
+void debug_asmlink_args8x3(uint8_t, uint8_t, uint8_t) WK;
+void debug_asmlink_args8x4(uint8_t, uint8_t, uint8_t, uint8_t) WK;
+void debug_asmlink_args16x1(uint16_t) WK;
+void debug_asmlink_args16x2(uint16_t, uint16_t) WK;
+void debug_asmlink_args16x3(uint16_t, uint16_t, uint16_t) WK;
+void debug_asmlink_args16x4(uint16_t, uint16_t, uint16_t, uint16_t) WK;
+void debug_asmlink_args32x1(uint32_t) WK;
+void debug_asmlink_args32x2(uint32_t, uint32_t) WK;
+void debug_asmlink_args32x3(uint32_t, uint32_t, uint32_t) WK;
+void debug_asmlink_args32x4(uint32_t, uint32_t, uint32_t, uint32_t) WK;
+uint8_t debug_asmlink_ret8(void) WK;
+uint16_t debug_asmlink_ret16(void) WK;
+uint32_t debug_asmlink_ret32(void) WK;
+uint64_t debug_asmlink_ret64(void) WK;
+#define CALL(f, ...) do { if (!f) return 0; f(__VA_ARGS__); return 1; } while (0)
+int c07_asmlink_args(int w, int n, const uint64_t *v)
 {
     if (w == 8)
     {
-        if (n == 1) debug_asmlink_args8x1((uint8_t)v[0]);
-        else if (n == 2) debug_asmlink_args8x2((uint8_t)v[0], (uint8_t)v[1]);
-        else if (n == 3) debug_asmlink_args8x3((uint8_t)v[0], (uint8_t)v[1], (uint8_t)v[2]);
-        else debug_asmlink_args8x4((uint8_t)v[0], (uint8_t)v[1], (uint8_t)v[2], (uint8_t)v[3]);
+        if (n == 1) CALL(debug_asmlink_args8x1, (uint8_t)v[0]);
+        else if (n == 2) CALL(debug_asmlink_args8x2, (uint8_t)v[0], (uint8_t)v[1]);
+        else if (n == 3) CALL(debug_asmlink_args8x3, (uint8_t)v[0], (uint8_t)v[1], (uint8_t)v[2]);
+        else CALL(debug_asmlink_args8x4, (uint8_t)v[0], (uint8_t)v[1], (uint8_t)v[2], (uint8_t)v[3]);
     }
     else if (w == 16)
     {
-        if (n == 1) debug_asmlink_args16x1((uint16_t)v[0]);
-        else if (n == 2) debug_asmlink_args16x2((uint16_t)v[0], (uint16_t)v[1]);
-        else if (n == 3) debug_asmlink_args16x3((uint16_t)v[0], (uint16_t)v[1], (uint16_t)v[2]);
-        else debug_asmlink_args16x4((uint16_t)v[0], (uint16_t)v[1], (uint16_t)v[2], (uint16_t)v[3]);
+        if (n == 1) CALL(debug_asmlink_args16x1, (uint16_t)v[0]);
+        else if (n == 2) CALL(debug_asmlink_args16x2, (uint16_t)v[0], (uint16_t)v[1]);
+        else if (n == 3) CALL(debug_asmlink_args16x3, (uint16_t)v[0], (uint16_t)v[1], (uint16_t)v[2]);
+        else CALL(debug_asmlink_args16x4, (uint16_t)v[0], (uint16_t)v[1], (uint16_t)v[2], (uint16_t)v[3]);
     }
     else
     {
-        if (n == 1) debug_asmlink_args32x1((uint32_t)v[0]);
-        else if (n == 2) debug_asmlink_args32x2((uint32_t)v[0], (uint32_t)v[1]);
-        else if (n == 3) debug_asmlink_args32x3((uint32_t)v[0], (uint32_t)v[1], (uint32_t)v[2]);
-        else debug_asmlink_args32x4((uint32_t)v[0], (uint32_t)v[1], (uint32_t)v[2], (uint32_t)v[3]);
+        if (n == 1) CALL(debug_asmlink_args32x1, (uint32_t)v[0]);
+        else if (n == 2) CALL(debug_asmlink_args32x2, (uint32_t)v[0], (uint32_t)v[1]);
+        else if (n == 3) CALL(debug_asmlink_args32x3, (uint32_t)v[0], (uint32_t)v[1], (uint32_t)v[2]);
+        else CALL(debug_asmlink_args32x4, (uint32_t)v[0], (uint32_t)v[1], (uint32_t)v[2], (uint32_t)v[3]);
     }
 }
-uint64_t c07_asmlink_ret(int w)
+int c07_asmlink_ret(int w, uint64_t *out)
 {
-    return w == 8 ? debug_asmlink_ret8() : w == 16 ? debug_asmlink_ret16() : w == 32 ? debug_asmlink_ret32() : debug_asmlink_ret64();
+    if (w == 8) { if (!debug_asmlink_ret8) return 0; *out = debug_asmlink_ret8(); }
+    else if (w == 16) { if (!debug_asmlink_ret16) return 0; *out = debug_asmlink_ret16(); }
+    else if (w == 32) { if (!debug_asmlink_ret32) return 0; *out = debug_asmlink_ret32(); }
+    else { if (!debug_asmlink_ret64) return 0; *out = debug_asmlink_ret64(); }
+    return 1;
 }
-void c07_asmlink_test(void) { debug_asmlink_test(); }
+int c07_asmlink_test(void) { CALL(debug_asmlink_test); }
